@@ -41,6 +41,7 @@ type rep struct {
 	idx      int
 	outcome  int
 	failRead bool
+	failStat bool // StatBlobs fails too (set for the second stat of the read scenarios)
 }
 
 func (r *rep) ReceiveBlob(ctx context.Context, br blob.Ref, src io.Reader) (blob.SizedRef, error) {
@@ -76,6 +77,9 @@ func (r *rep) Fetch(ctx context.Context, br blob.Ref) (io.ReadCloser, uint32, er
 
 func (r *rep) StatBlobs(ctx context.Context, blobs []blob.Ref, fn func(blob.SizedRef) error) error {
 	vsync.Point(fmt.Sprintf("r%d.stat", r.idx))
+	if r.failStat {
+		return hs.ErrInjected
+	}
 	return r.Mem.StatBlobs(ctx, blobs, func(sb blob.SizedRef) error {
 		vsync.Point(fmt.Sprintf("r%d.statcb", r.idx))
 		return fn(sb)
@@ -196,6 +200,9 @@ func readScenario(maskA, maskB, failMask int, distinct bool) *sched.Config {
 			var statErr error
 			var enumGot []blob.SizedRef
 			var enumErr error
+			var stat2Got map[string]bool
+			var stat2Err error
+			stat2Done := false
 			x.Go("reader", func() {
 				for _, bl := range []hs.Blob{a, b} {
 					rc, _, err := sto.Fetch(ctx, bl.Ref)
@@ -211,11 +218,32 @@ func readScenario(maskA, maskB, failMask int, distinct bool) *sched.Config {
 					return nil
 				})
 				enumGot, enumErr = hs.Enumerate(ctx, sto, "", 10)
+				// once more with the failing read replicas failing their stat too: the call may
+				// fail as a whole, but if it reports success it must not present a blob that one
+				// of the failing replicas holds as absent
+				if failMask != 0 {
+					for i, r := range reps {
+						r.failStat = failMask&(1<<i) != 0
+					}
+					stat2Got = map[string]bool{}
+					stat2Err = sto.StatBlobs(ctx, []blob.Ref{a.Ref, b.Ref}, func(sb blob.SizedRef) error {
+						stat2Got[sb.Ref.String()] = true
+						return nil
+					})
+					stat2Done = true
+				}
 			})
 			x.Run()
 			if x.Deadlock {
 				x.Fail("read-hangs", "reader did not finish")
 				return
+			}
+			if stat2Done && stat2Err == nil {
+				for i, bl := range []hs.Blob{a, b} {
+					if []int{maskA, maskB}[i] != 0 && !stat2Got[bl.Ref.String()] {
+						x.Fail("stat-success-hides-held-blob", fmt.Sprintf("StatBlobs returned nil although read replicas %03b failed their stat, and did not report %s, which replicas %03b hold", failMask, bl.Name, []int{maskA, maskB}[i]))
+					}
+				}
 			}
 			for i, bl := range []hs.Blob{a, b} {
 				mask := []int{maskA, maskB}[i]
@@ -305,6 +333,9 @@ func scenarios() []*sched.Config {
 			out = append(out, defaultQuorumScenario(3, nRead, fail))
 		}
 	}
+	// two receives in a row with a quorum smaller than the replica count: a replica that is still
+	// reading the first blob when the call returned must end up with the first blob's bytes
+	out = append(out, twoReceiveScenario())
 	// overlap where one read replica holds a truncated copy (its stat and enumerate report a smaller size)
 	for truncMask := 1; truncMask < 8; truncMask++ {
 		if truncMask == 7 {
@@ -360,6 +391,53 @@ func defaultQuorumScenario(n, nRead, failIdx int) *sched.Config {
 			}
 			if rerr == nil {
 				x.Fail("success-below-default-quorum", fmt.Sprintf("ReceiveBlob returned success although write replica r%d failed and minWritesForSuccess is not configured (default: all %d write replicas); readBackends = first %d", failIdx, n, nRead))
+			}
+		}}
+}
+
+func twoReceiveScenario() *sched.Config {
+	first := theBlob
+	second := hs.Mk("y", []byte("REPLICATED BLOB"), "")
+	return &sched.Config{Name: "write-two-receives/n=2/min=1", Bound: 3, SigPrefix: "C12|write-two-receives",
+		Body: func(x *sched.X) {
+			env := bk.NewEnv()
+			defer env.Close()
+			reps := make([]*rep, 2)
+			var prefixes []any
+			for i := range reps {
+				p := fmt.Sprintf("/r%d/", i)
+				reps[i] = &rep{Mem: hs.NewMem(p), idx: i, outcome: oOK}
+				env.Ld.Set(p, reps[i])
+				prefixes = append(prefixes, p)
+			}
+			sto, err := env.Create("replica", map[string]any{"backends": prefixes, "minWritesForSuccess": 1})
+			if err != nil {
+				panic(err)
+			}
+			var errs []error
+			x.Go("client", func() {
+				for _, b := range []hs.Blob{first, second} {
+					if _, err := sto.ReceiveBlob(ctx, b.Ref, bytes.NewReader(b.Data)); err != nil {
+						errs = append(errs, err)
+					}
+				}
+			})
+			x.Run()
+			if x.Deadlock {
+				x.Fail("receive-hangs", "the two receives did not finish")
+				return
+			}
+			if len(errs) > 0 {
+				x.Fail("error-despite-quorum", fmt.Sprintf("receive failed although every replica succeeds: %v", errs))
+				return
+			}
+			for i, r := range reps {
+				for _, b := range []hs.Blob{first, second} {
+					if d, ok := r.Mem.Get(b.Ref); ok && !bytes.Equal(d, b.Data) {
+						x.Fail("replica-holds-wrong-bytes", fmt.Sprintf("replica %d holds %q under the ref of %q", i, d, b.Data))
+						return
+					}
+				}
 			}
 		}}
 }
